@@ -46,7 +46,7 @@ def gen_script(rng, ncols, nsess, bufs, allow_bad=False):
     for _ in range(nsess):
         c = rng.below(ncols)
         kind = rng.weighted([("writing", 3), ("reading", 1)])
-        fault = rng.weighted([("none", 5), ("atBegin", 1), ("atUpdate", 1), ("atBody", 2), ("atFlush", 2), ("atEnd", 1)])
+        fault = rng.weighted([("none", 5), ("atBegin", 1), ("atUpdate", 1), ("atBody", 2), ("atFlush", 2), ("atEnd", 1), ("atBodyBase", 2)])
         if kind == "reading" and fault == "atFlush":
             fault = "none"
         if fault == "atFlush" and bufs[c] != 1_000_000:
@@ -83,7 +83,7 @@ def model_lines(bufs, script):
         if fault != "atUpdate":
             ops.append(f"ckeys {c}")
         if kind == "writing" and fault != "atUpdate":
-            ps = puts[:cut] if fault == "atBody" else puts
+            ps = puts[:cut] if fault in ("atBody", "atBodyBase") else puts
             for k, v in ps:
                 ops.append(f"cput {c} {hx(k.encode())} {hx(v)} {len(k)}")
         ops.append(f"endfault {c}" if fault == "atFlush" else f"end {c}")
@@ -94,6 +94,8 @@ def model_lines(bufs, script):
 def run_script(ctx, probe, path: Path, bufs, script, tag, alias: Path = None, probe_inside=()):
     from molli.storage import Collection, UkvCollectionBackend
 
+    if sum(1 for v in ctx.violations if v["kind"].startswith("C04:lock-not-released")) >= 4:
+        return None        # each leaked lock costs two probe timeouts; four witnesses are enough
     if path.exists():
         path.unlink()
     cols = [Collection(path, UkvCollectionBackend, readonly=False, bufsize=b) for b in bufs]
@@ -113,7 +115,13 @@ def run_script(ctx, probe, path: Path, bufs, script, tag, alias: Path = None, pr
                 # while this session is inside its body a second process must not get the write lock,
                 # and must get a read lock iff this session is a reader
                 return (probe.ask("w", ppath, timeout=8.0, lock_timeout=0.25), probe.ask("r", ppath, timeout=8.0, lock_timeout=0.25))
-        out = sesslib.run_session(col, kind, fault, puts, cut=cut, in_body=in_body)
+        reads = tuple(sorted(expected.keys())[:1]) if (kind == "writing" and si % 2 == 1) else ()
+        out = sesslib.run_session(col, kind, fault, puts, cut=cut, in_body=in_body, reads=reads)
+        for rk, rv in out.get("reads", {}).items():
+            if fault not in ("atBegin", "atUpdate") and rv != expected.get(rk):
+                ctx.violation("C04:read-in-writing-session-differs",
+                              f"session {si}: reading {rk!r} inside a writing session gave {str(rv)[:40]!r}, not the stored value",
+                              {"bufs": bufs, "script": tag, "at": si})
         if "in_body" in out:
             aw, ar = out["in_body"]
             ctx.count("in_session_probes")
@@ -148,7 +156,7 @@ def run_script(ctx, probe, path: Path, bufs, script, tag, alias: Path = None, pr
                         ctx.violation("C04:stale-key-listing-in-session",
                                       f"writing session {si} listed {len(out['listed'])} keys at its start; {len(exp_listed)} expected",
                                       {"bufs": bufs, "script": tag, "at": step})
-                ps = [] if fault == "atUpdate" else (puts[:cut] if fault == "atBody" else puts)
+                ps = [] if fault == "atUpdate" else (puts[:cut] if fault in ("atBody", "atBodyBase") else puts)
                 queue = pending[c] + ps
                 if fault == "badValue":
                     # everything queued before the bad pair is written (flushes write in order), the bad pair is not,
@@ -507,7 +515,7 @@ def run(ctx):
     outs = ctx.driver(lines)
     for line, (toks, bufs, tag), mout in zip(lines, impls, outs):
         mt = [t for t in mout.split(";") if t.startswith("keys:") or t.startswith("lib:")]
-        if mt != toks:
+        if toks is not None and mt != toks:
             idx = next((j for j, (a, b) in enumerate(zip(mt, toks)) if a != b), min(len(mt), len(toks)))
             ctx.disagree("session replay differs from the backend model", {"bufs": bufs, "script": tag, "first_difference_at": idx},
                          toks[idx] if idx < len(toks) else None, mt[idx] if idx < len(mt) else None)
